@@ -180,7 +180,8 @@ impl TDigestMut {
             return;
         }
 
-        if self.buffer.len() == self.centroids_capacity * BUFFER_MULTIPLIER {
+        // `>=`: the buffer of a deserialized image may already hold more than the capacity
+        if self.buffer.len() >= self.centroids_capacity * BUFFER_MULTIPLIER {
             self.compress();
         }
 
